@@ -152,14 +152,59 @@ mod verif_proofs {
         (f, rt, m)
     }
 
-    /// counterexample twin of k_pad: same real function, same pre/postcondition, plain harness
+    /// counterexample twin of k_pad: same real function, same pre/postcondition, but a plain
+    /// harness whose assertions also run natively (`cargo kani playback`).  Only used to obtain
+    /// and replay a failing input after k_pad has failed; it decides nothing.
     #[kani::proof]
     pub(crate) fn k_pad_cex() {
-        let (f, rt, m) = pad_inputs();
-        kani::assume(pad_pre(&f, &rt, &m));
+        fn frac() -> f64 {
+            let f: f64 = kani::any();
+            kani::assume(f >= 0.0 && f <= 1.0);
+            f
+        }
+        let t0 = VInst(0);
+        let f: Fw = Framework {
+            current_time: t0,
+            rng: NoRng,
+            actions: vec![],
+            machines: vec![],
+            runtime: vec![],
+            max_padding_frac: frac(),
+            normal_sent_packets: kani::any(),
+            padding_sent_packets: kani::any(),
+            max_blocking_frac: 0.0,
+            blocking_duration: VDur(0),
+            blocking_started: t0,
+            blocking_active: false,
+            signal_pending: None,
+            counter_zeroed_once: (false, false),
+            framework_start: t0,
+        };
+        kani::assume(f.normal_sent_packets.checked_add(f.padding_sent_packets).is_some());
+        let rt: MachineRuntime<VInst> = MachineRuntime {
+            current_state: 0,
+            state_limit: kani::any(),
+            padding_sent: kani::any(),
+            normal_sent: kani::any(),
+            blocking_duration: VDur(0),
+            machine_start: t0,
+            allowed_blocked_microsec: VDur(0),
+            counter_a: 0,
+            counter_b: 0,
+        };
+        kani::assume(rt.normal_sent.checked_add(rt.padding_sent).is_some());
+        let m = Machine {
+            allowed_padding_packets: kani::any(),
+            max_padding_frac: frac(),
+            allowed_blocked_microsec: 0,
+            max_blocking_frac: 0.0,
+            states: vec![],
+        };
         let r = f.below_limit_padding(&rt, &m);
-        assert!(!r || rt.state_limit > 0, "[C07.pos]");
-        assert!(!r || pad_budget_ok(&f, &rt, &m), "[C02.budget]");
+        if r {
+            assert!(rt.state_limit > 0, "[C07.pos]");
+            assert!(pad_budget_ok(&f, &rt, &m), "[C02.budget]");
+        }
     }
 
     // solver portfolio: the same contract proof run with CaDiCaL (finds counterexamples fast) and
